@@ -102,6 +102,8 @@ class World:
                  device_cls=LedgerDevice, keep_events=0, seed=b"seed"):
         global _CURRENT
         install_seams()
+        import socket as _socket
+        _socket.setdefaulttimeout(None)      # process-wide state a previous run may have left behind
         self.ch = ch
         self.log = EventLog(keep=keep_events)
         self.clock = Clock(log=self.log)
